@@ -56,8 +56,11 @@ def core_tree(rng, depth):
         if kind == "set":
             return ast.SetComp(elt=r(), generators=gens)
         return ast.DictComp(key=r(), value=r(), generators=gens)
+    if rng.random() < 0.4:
+        part = lambda: r() if rng.random() < 0.6 else None
+        return ast.Subscript(value=r(), slice=ast.Slice(lower=part(), upper=part(), step=part()), ctx=G.L)
     s = r()
-    while isinstance(s, (ast.Tuple, ast.Slice, ast.Starred)):
+    while isinstance(s, (ast.Slice, ast.Starred)):
         s = r()
     return ast.Subscript(value=r(), slice=s, ctx=G.L)
 
